@@ -4,12 +4,12 @@ C12 driver: TRACE ACCEPTANCE against `CamVerif.Model.StreamLoop`.
 Request (one line, space separated):
   c12 trace <ls> <ts> <ps> <pc> <f1> <f2> <cap> <bcap> <item>* <event>*
 items  : `id<hex|->` data packet, `ifio` `ifdisc` `iftimeout` fault
-events : loop thread   Ytop Yobt Ypoll Ysend            yield-point markers
+events : loop thread   Ytop Yget Yobt Ypoll Ysend Yerr  yield-point markers
                        S<id>,<len>  SF<cls>            submit ok / failed
                        PD<id>,<len>,<fnv>  PE<id>,<cls>  PP<id>  PC<id>   poll: data / fault / pending / cancelled
                        C<id>                            cancel
          receiver      RO<tok>,<ptr>,<valid>,<info>,<fnv>  RE<cls>  RN  RB<tok>  RD<tok>  RX
-         controller    KC  KR<ok|err>
+         controller    KC  KR<ok|err>  KL<ok|err> (close returned)  KD (drop returned)  KS (start refused)
          end           F<outstanding>
 Answer: `ACCEPT <n states> <abstract transition hashes ...>` or `REJECT <index> <event> <why>`.
 
@@ -71,7 +71,7 @@ def pcTag : PC → Nat
   | .drop c => 200 + c | .exiting => 10 | .exited => 11 | .dead => 12
 
 def ctlTag : Ctl → Nat
-  | .running => 0 | .stopping => 1 | .stopOk => 2 | .stopErr => 3 | .calling => 4
+  | .running => 0 | .stopping => 1 | .stopOk => 2 | .stopErr => 3 | .calling => 4 | .closed => 5
 
 /-- Abstract (control) state used for the coverage figures. -/
 def absHash (s : State) : UInt64 :=
@@ -84,7 +84,7 @@ def stepTag : Step → Nat
   | .pollOk => 7 | .pollOverflow => 8 | .pollFault => 9 | .pollPending => 10 | .parse => 11
   | .trySend => 12 | .cancelNext => 13 | .reapOne => 14 | .iterEnd => 15 | .exit => 16
   | .rxRecv => 17 | .rxNone => 18 | .rxSendBack _ => 19 | .rxDrop _ => 20 | .rxClose => 21
-  | .stopCall => 22 | .stopDisc => 23 | .stopBlock => 24
+  | .stopCall => 22 | .stopDisc => 23 | .stopBlock => 24 | .closeDone => 25
 
 structure Env where
   P : Params
@@ -145,6 +145,8 @@ def applyEvent (E : Env) (ev : String) (a : Acc) : Option Acc :=
   else if ev == "Yobt" then (if s.pc == .submit 0 then some a else none)
   else if ev == "Ypoll" then (if s.pc == .poll then some a else none)
   else if ev == "Ysend" then (match s.pc with | .send (.ok _) => some a | _ => none)
+  else if ev == "Yget" then (if s.pc == .obtain then some a else none)
+  else if ev == "Yerr" then (match s.pc with | .send (.err _) => some a | _ => none)
   else if ev.startsWith "SF" then
     match clsOf body with
     | some e => E.step a (.submitFail e)
@@ -235,6 +237,15 @@ def applyEvent (E : Env) (ev : String) (a : Acc) : Option Acc :=
   else if ev == "KC" then E.step a .stopCall
   else if ev == "KRok" then (if s.ctl == .stopOk then some a else none)
   else if ev == "KRerr" then (if s.ctl == .stopErr then some a else none)
+  -- `close()` returned Ok: the stop succeeded and the loop thread has released the channel
+  else if ev == "KLok" then E.step a .closeDone
+  else if ev == "KLerr" then (if s.ctl == .stopErr then some a else none)
+  -- the handle was dropped (`Drop` = `close`, result ignored)
+  else if ev == "KD" then (match E.step a .closeDone with
+    | some r => some r
+    | none => if s.ctl == .stopErr then some a else none)
+  -- `start_streaming_loop` on a running handle: refused with `InStreaming`, nothing changes
+  else if ev == "KS" then (if s.ctl == .running then some a else none)
   else if ev.startsWith "F" then
     -- end of the session: the loop has exited, the fake's ledger is what the model says
     match body1.toNat? with
